@@ -103,6 +103,12 @@ def check_apply_group(ctx, recs, tag, variant):
     T, F = recs[0]["T"], recs[0]["F"]
     N = len(recs)
     feats = features(N, T, F, dtype=torch.float64 if variant % 4 == 3 else torch.float32)
+    if variant % 3 == 1:
+        # log-domain features hold -inf for empty bins (and a broken front end inf / NaN): masking still ZEROES a masked
+        # cell whatever it held, and leaves every other cell bit-identical
+        flat = feats.view(-1)
+        for k, v in enumerate((-float("inf"), float("inf"), float("nan"))):
+            flat[k + (variant % 5)::4 + k] = v
     lens = torch.tensor([r["len"] for r in recs])
     use_lens = not (variant % 2 == 1 and all(r["len"] == T for r in recs))
     params = mask_params(recs, empty_as_none=(variant // 2) % 2 == 1)
@@ -126,7 +132,8 @@ def check_apply_group(ctx, recs, tag, variant):
             want_zero[n, i, j] = True
     got_zero = out == 0
     bad_zero = (got_zero != want_zero).flatten(1).any(1)
-    bad_keep = ((out != feats) & ~want_zero).flatten(1).any(1)
+    same = (out == feats) | (torch.isnan(out) & torch.isnan(feats))  # bit-identical, NaN included
+    bad_keep = (~same & ~want_zero).flatten(1).any(1)
     if bool(bad_zero.any()):
         n = int(bad_zero.nonzero()[0])
         _viol(ctx, dict(site=site, kind="masked_cells", batch=tag),
